@@ -20,8 +20,10 @@ RULE = ('Hypothesis draws a pool of 2..8 elements of all six kinds (teeth/starts
         'orientation), self-locking flag, ratio > 0, 0 <= efficiency <= 1, no other element changed. '
         'Non-trivial = the sequence has a rejected call after an accepted one; distinct = canonical JSON.')
 ASSUMPTIONS = [
-    'worm/wheel pairs with different helix angles, a WormWheel in add_gear_mating, and numeric conditions '
+    'worm/wheel pairs with different helix angles and numeric conditions '
     'within 1e-9 of their threshold are not predicted (only the consistency of the observed outcome is checked)',
+    'a WormWheel handed to add_gear_mating is a helical gear (it is a HelicalGear subclass with a helix angle): '
+    'with a spur gear, or with another helix angle, the pair is incompatible',
     'the efficiency of a fixed joint is not specified by the statement and is only required to stay in [0,1]',
 ]
 
@@ -47,8 +49,6 @@ def check(case) -> Result:
         x = call.get('x')
         if fn == 'gear':
             reasons, amb, exp = R.gear_mating(ms, ss, mi == si, x)
-            if 'wheel' in (ms['type'], ss['type']):
-                amb = True
             args = dict(master=m, slave=s, efficiency=x)
         elif fn == 'worm':
             reasons, amb, exp = R.worm_mating(ms, ss, x)
